@@ -514,7 +514,8 @@ class SymNum(Sym):
     def __float__(self):
         v = implied_value(self)
         if v is None:
-            raise Unsupported("float() of a symbolic value that is not fixed on this path")
+            # C-level conversion (float(x), math.*, formatting): concolic fallback, one sampled value, path marked non-exhaustive
+            v = sample_value(self, "float() of a symbolic value")
         return float(v)
 
     @property
@@ -977,6 +978,32 @@ def implied_value(x):
     return None
 
 
+def sample_value(x, why="an operation outside the encoding"):
+    """Concolic fallback: fix the symbolic scalar to ONE value consistent with the path (no fork) and remember that the path is no
+    longer exhaustive.  Returns a plain Python number."""
+    if not is_sym(x):
+        return x
+    r = to_term(x)
+    if r is None:
+        raise Unsupported("sample_value of a non-scalar")
+    t = z3.simplify(r[0])
+    v = _numeral(t)
+    if v is None:
+        run = current()
+        m = run.model()
+        if m is None:
+            raise PathAbort("no model while sampling")
+        cand = m.eval(t, model_completion=True)
+        run.add(t == cand)
+        note = "one sampled value per symbolic input of " + why
+        if note not in run.inexact:
+            run.inexact.append(note)
+        v = _numeral(cand)
+    if isinstance(v, Fraction):
+        return float(v)
+    return v
+
+
 def concretize_int(x, cap=64) -> int:
     """Python needs a concrete integer (range length, index, slice width)."""
     if isinstance(x, bool):
@@ -1331,6 +1358,9 @@ def explore(
                         res["assumptions"].append(a)
                 if run.inexact:
                     res["exhaustive"] = False
+                    for note in run.inexact:
+                        if note not in res.setdefault("sampled", []):
+                            res["sampled"].append(note)
                 if on_path is not None or witness:
                     m = run.model()
                     if m is not None:
